@@ -138,8 +138,11 @@ def fresh():
             small, err = _run_work(tmp, os.path.join(tmp, "work_small.json"))
             res["digests_small"] = small["digests"] if small else None
         if res is None:
-            from ..runner import HarnessError
-            raise HarnessError("fresh table generation failed: " + err[-1500:])
+            # the declared grammar cannot be turned into tables at all: with a missing or stale cache the library cannot start.
+            # That is a counter-example to the regeneration clause, reported by the first case (not a harness problem).
+            _FRESH["error"] = err
+            shutil.rmtree(tmp, ignore_errors=True)
+            return _FRESH
         json.dump(res, open(os.path.join(tmp, "done.json"), "w"))
         try:
             os.rename(tmp, base)
@@ -204,6 +207,13 @@ def set_state(pkg, state, F):
 def evaluate(case):
     F = fresh()
     D = []
+    if F.get("error"):
+        if case["kind"] != "tables":
+            return {"diffs": [], "skipped": True}
+        lines = [l for l in F["error"].splitlines() if l.strip()]
+        return {"diffs": [diff("start of the library with the table file removed (tables must be regenerated from the declared grammar)",
+                               "regeneration-fails", "tables generated, workload parsed", " | ".join(lines[:2] + lines[-2:])[:600])],
+                "nontrivial": True, "outcome": "no-regeneration"}
     if case["kind"] == "tables":
         # (a) tables in use with the tree's own cache file
         tmp = tempfile.mkdtemp(prefix="c20a_", dir=sut.scratch_base())
